@@ -55,3 +55,120 @@ Theorem C09_bestmove_from_last_completed : forall (T : Tables.t) orc g st,
   forallb non_aborted (tl log) = true.
 Proof. exact C09_bestmove_from_last_completed_thm. Qed.
 Print Assumptions C09_bestmove_from_last_completed.
+
+(* ================================================================================================================
+   GLUE (Proofs/ChessInstance.v, Proofs/Preserve.v): the hypothesis [C03_family] is discharged for the concrete chess
+   model, and the theorems above are restated for the tables regenerated from the current /repo without any abstract
+   hypothesis.  The invariant (its meaning is pinned by C09_good_chess_meaning / C09_ep_free_meaning):
+     good_chess T n b := wf b /\ rights_wf b /\ ep_free b /\ is_valid T b /\ half b + n < 4096
+       ep_free b     the e.p. square is "none" (0) or an empty square (needed: ChessInstance.ep_free_needed)
+       is_valid T b  the side NOT to move is not in check (needed: ChessInstance.is_valid_needed)
+   Q = 129 = 1 + 2 * 64 bounds the fuel of the capture search (a u64 has at most 64 set bits).
+   RANGE OF HALF-MOVE CLOCKS COVERED: a go of at most D iterations on a board with  half b + D + 130 < 4096.
+   ================================================================================================================ *)
+Require Ink.Gen.Tables.
+Require Import Ink.Lib.Bits Ink.Proofs.GenShape Ink.Proofs.MakeUnmake Ink.Proofs.AttackProofs Ink.Proofs.LayoutProofs.
+Require Import Ink.Proofs.Preserve Ink.Proofs.ChessInstance.
+
+Theorem C09_good_chess_meaning : forall (T : Tables.t) (n : nat) (b : board),
+  good_chess T n b <->
+  wf b = true /\ rights_wf b = true /\ ep_free b = true /\ is_valid T b = true /\ half b + N.of_nat n < 4096.
+Proof. exact (fun T n b => iff_refl _). Qed.
+Print Assumptions C09_good_chess_meaning.
+
+Theorem C09_ep_free_meaning : forall b : board,
+  ep_free b = (ep b =? 0) || negb (N.testbit (N.lor (full_occ (white b)) (full_occ (black b))) (ep b)).
+Proof. exact (fun b => eq_refl). Qed.
+Print Assumptions C09_ep_free_meaning.
+
+(* executable form of the invariant *)
+Theorem C09_good_chessb_spec : forall (T : Tables.t) (n : nat) (b : board), good_chessb T n b = true <-> good_chess T n b.
+Proof. exact good_chessb_spec. Qed.
+Print Assumptions C09_good_chessb_spec.
+
+(* the invariant is preserved by EVERY generated move (legal or not) out of a position that satisfies it *)
+Theorem C09_make_preserves : forall (T : Tables.t),
+  tables_castle_ok T = true -> tables_attacks_ok T = true -> tables_bounded T = true ->
+  tables_geom_ok T = true -> tables_rank18_ok T = true ->
+  forall (b : board) (m : move) (b' : board),
+  wf b = true -> rights_wf b = true -> ep_free b = true -> is_valid T b = true ->
+  In m (gen_pseudo T b) -> make b m = Some b' ->
+  wf b' = true /\ rights_wf b' = true /\ ep_free b' = true /\ half b' <= half b + 1.
+Proof. exact make_preserves. Qed.
+Print Assumptions C09_make_preserves.
+
+(* a valid position has no pseudo-legal king capture (the generator's attack sets vs the check test, by symmetry) *)
+Theorem C09_no_king_capture : forall (T : Tables.t), tables_attacks_ok T = true ->
+  forall (b : board) (s t pc att : N), wf b = true -> is_valid T b = true ->
+  In (pc, att) (piece_attack_sets T b s) -> N.testbit (occ_of (active b) pc) s = true ->
+  N.testbit att t = true -> N.testbit (kings (passive b)) t = false.
+Proof. exact no_king_capture_piece. Qed.
+Print Assumptions C09_no_king_capture.
+
+Theorem C09_no_king_capture_pawn : forall (T : Tables.t), tables_attacks_ok T = true ->
+  forall (b : board) (s t : N), wf b = true -> is_valid T b = true ->
+  N.testbit (pawns (active b)) s = true -> N.testbit (pawn_capture_set T b s) t = true ->
+  N.testbit (kings (passive b)) t = false.
+Proof. exact no_king_capture_pawn. Qed.
+Print Assumptions C09_no_king_capture_pawn.
+
+(* C03_family holds for every table set that passes the five boolean table checks ... *)
+Theorem C09_chess_C03_family : forall (T : Tables.t), tables_chess_ok T = true -> C03_family T (good_chess T) 129.
+Proof. exact chess_C03_family. Qed.
+Print Assumptions C09_chess_C03_family.
+
+(* ... and the regenerated tables pass them *)
+Theorem C09_gen_tables_chess_ok : tables_chess_ok Ink.Gen.Tables.tables = true.
+Proof. exact gen_tables_chess_ok. Qed.
+Print Assumptions C09_gen_tables_chess_ok.
+
+Theorem C09_negamax_board_chess : forall orc d ply alpha beta is_pv zh zph st,
+  good_chess Ink.Gen.Tables.tables (d + 130) (s_board st) ->
+  s_board (snd (negamax Ink.Gen.Tables.tables orc d ply alpha beta is_pv zh zph st)) = s_board st.
+Proof. exact ChessInstance.C09_negamax_board_chess. Qed.
+Print Assumptions C09_negamax_board_chess.
+
+Theorem C09_quiescence_board_chess : forall fuel alpha beta zph st,
+  good_chess Ink.Gen.Tables.tables fuel (s_board st) ->
+  s_board (snd (quiescence Ink.Gen.Tables.tables fuel alpha beta zph st)) = s_board st.
+Proof. exact ChessInstance.C09_quiescence_board_chess. Qed.
+Print Assumptions C09_quiescence_board_chess.
+
+Theorem C09_go_board_chess : forall orc g st D,
+  (length (fst (go_full Ink.Gen.Tables.tables orc g st)) <= D)%nat ->
+  good_chess Ink.Gen.Tables.tables (D + 130) (s_board st) ->
+  s_board (go Ink.Gen.Tables.tables orc g st) = s_board st.
+Proof. exact ChessInstance.C09_go_board_chess. Qed.
+Print Assumptions C09_go_board_chess.
+
+Theorem C09_go_depth_board_chess : forall orc g st dd, g_depth g = Some dd ->
+  good_chess Ink.Gen.Tables.tables (Pos.to_nat (match N.max dd 1 with Npos q => q | N0 => xH end) + 130) (s_board st) ->
+  s_board (go Ink.Gen.Tables.tables orc g st) = s_board st.
+Proof. exact ChessInstance.C09_go_depth_board_chess. Qed.
+Print Assumptions C09_go_depth_board_chess.
+
+Theorem C09_sessions_chess : forall cmds st,
+  session_ok Ink.Gen.Tables.tables (good_chess Ink.Gen.Tables.tables) 129 cmds st ->
+  s_quit (run_commands Ink.Gen.Tables.tables cmds st) = false ->
+  s_board (run_commands Ink.Gen.Tables.tables cmds st) = fold_left (track Ink.Gen.Tables.tables) cmds (s_board st).
+Proof. exact ChessInstance.C09_sessions_chess. Qed.
+Print Assumptions C09_sessions_chess.
+
+(* the invariant is satisfiable: start position, a castling-rich middlegame, a position with a real e.p. square *)
+Theorem C09_good_chess_startpos : good_chess Ink.Gen.Tables.tables 3965 (board_of_text Ink.Model.Fen.STARTPOS).
+Proof. exact good_chess_startpos. Qed.
+Print Assumptions C09_good_chess_startpos.
+
+(* both extra conjuncts of the invariant are necessary for wf of the successor *)
+Theorem C09_ep_free_needed : exists b m b',
+  wf b = true /\ rights_wf b = true /\ is_valid Ink.Gen.Tables.tables b = true /\ ep_free b = false /\
+  In m (gen_pseudo Ink.Gen.Tables.tables b) /\ make b m = Some b' /\
+  is_valid Ink.Gen.Tables.tables b' = true /\ wf b' = false.
+Proof. exact ep_free_needed. Qed.
+Print Assumptions C09_ep_free_needed.
+
+Theorem C09_is_valid_needed : exists b m b',
+  wf b = true /\ rights_wf b = true /\ ep_free b = true /\ is_valid Ink.Gen.Tables.tables b = false /\
+  In m (gen_pseudo Ink.Gen.Tables.tables b) /\ make b m = Some b' /\ wf b' = false.
+Proof. exact is_valid_needed. Qed.
+Print Assumptions C09_is_valid_needed.
